@@ -31,13 +31,14 @@ Wire(k) == IF k = "pid" THEN "ack" ELSE k
 TInit == Init /\ t \in 1..N /\ lh = 1 /\ lc = 1 /\ dz = FALSE /\ kz = FALSE
 
 HostEvents2 ==
-  \/ HEv("api", "call") /\ HostBegin(H[lh].k, H[lh].sa, H[lh].cb)
+  \/ HEv("api", "call") /\ \E big \in BOOLEAN : HostBegin(H[lh].k, H[lh].sa, H[lh].cb, big)   \* size not logged: inferred
   \/ HEv("api", "ret") /\ HostReturn /\ hret = H[lh].r
   \/ HEv("harness", "cancel") /\ CtxCancel
   \/ HEv("harness", "cancel") /\ ~ENABLED CtxCancel /\ UNCHANGED vars      \* cancel after the call ended / twice
   \/ HEv("harness", "cb") /\ HostCallback /\ hop.cb = H[lh].res
   \/ HEv("host", "sent") /\ HostSLSend /\ hSL[2].k = H[lh].k
   \/ HEv("host", "senderr") /\ HostSLErr
+  \/ HEv("host", "sendbig") /\ HostSLTooBig /\ hSL[2].k = H[lh].k
   \/ HEv("host", "recvd") /\ HostRLRecv /\ Wire(Head(c2h).k) = H[lh].k
   \/ HEv("host", "recverr") /\ HostRLErr
   \/ HEv("host", "branch") /\ CASE H[lh].b = "done"   -> HostWaitDone
